@@ -461,7 +461,23 @@ def rule_def_init(F, ev, R, config, rule="R-DEF-INIT"):
                     continue
                 ok, msg = proven_full_overwrite(F, ev, b, bi, t)
                 R.add(rule, config, b.key, "uninit-fully-overwritten", ok, msg if not ok else "every column written before the matrix can be returned: " + msg, t.get("span"))
-    R.floor(rule, config, 4 if config == "default" else 6, "2/3 unsafe blocks + 2/3 proven allocations")
+    # result matrices allocated initialised (zeros / from_element) satisfy the clause trivially
+    for rk in sorted(allowed_roots):
+        b = F.bodies[rk]
+        env = Env(b)
+        for bi, t in b.calls():
+            if "fn" in t and t["fn"]["name"] in ("column_iter_mut", "par_column_iter_mut"):
+                v = ev.call_val(env, bi)
+                src = strip_mut(v[3][0])[0]
+                if src[0] == "phi":
+                    alts = [strip_mut(x)[0] for x in src[1] if x[0] != "loopback"]
+                    src = alts[0] if alts else src
+                if src[0] == "call" and src[1].rsplit("::", 1)[-1] in ("zeros", "zeros_generic", "from_element", "from_element_generic", "repeat", "from_fn", "identity"):
+                    R.ok(rule, config, b.key, "result-matrix-allocated-initialised", "allocated with `%s`" % src[1].rsplit("::", 1)[-1], t.get("span"))
+    n_alloc = sum(1 for i in R.instances if i["rule"] == rule and i["config"] == config and i["inst"] in ("uninit-fully-overwritten", "result-matrix-allocated-initialised"))
+    want = 2 if not config.endswith("parallel") else 3
+    if n_alloc < want:
+        R.bad(rule, config, "-", "floor", "only %d of the %d result-matrix allocation sites (SeparableModel::eval, jacobian per flavour) were matched" % (n_alloc, want))
 
 
 def proven_full_overwrite(F, ev, b, bi, t):
@@ -636,7 +652,7 @@ def canon(t, memo=None):
             head = None
         return ("call", cid, head, tuple(canon(a, memo) for a in t[3]), None)
     if tag == "closure":
-        return ("closure", t[1].rsplit("::", 1)[-1], tuple((n, canon(v, memo)) for n, v in t[2]))
+        return ("closure", "*", ())  # closures are compared separately (effects / normal forms)
     if tag == "mutated":
         return ("mutated", canon(t[1], memo), ("-", 0, 0), ())
     return tuple(canon(x, memo) if isinstance(x, (tuple, frozenset)) else x for x in t)
@@ -659,7 +675,7 @@ def rule_sibling(F, ev, R, config, rule="R-SIBLING"):
         if m == "set_params":
             ws = [(k, canon(v)) for (_, _, k, v, _) in rules_err.cache_writes(F, ev, bs, pr)]
             wp = [(k, canon(v)) for (_, _, k, v, _) in rules_err.cache_writes(F, ev, bp, pr)]
-            ok = sorted(map(repr, ws)) == sorted(map(repr, wp))
+            ok = set(map(repr, ws)) == set(map(repr, wp))
             R.add(rule, config, bp.key, "set_params-sinks-equal", ok,
                   "" if ok else "the cache values written by the parallel set_params differ from the sequential ones", bp.j["span"])
             # same control skeleton: number of cache writes by kind
@@ -676,11 +692,31 @@ def rule_sibling(F, ev, R, config, rule="R-SIBLING"):
                 es = [(c, tuple(canon(a) for a in args)) for c, h, args, t, body, bi in effect_calls(ev, cs[0][1])]
                 ep = [(c, tuple(canon(a) for a in args)) for c, h, args, t, body, bi in effect_calls(ev, cp[0][1])]
                 ok = es == ep
+                how = "same operation sequence"
+                if not ok:
+                    # semantic fallback: equal normal forms of everything written and equal model calls
+                    ok = closure_signature(es) == closure_signature(ep)
+                    how = "different code, equal normal forms of the written column and equal model calls"
                 R.add(rule, config, cp[0][0].key, "column-closure-effects-equal", ok,
-                      "" if ok else "the per-column closure of the parallel jacobian() performs different operations than the sequential one", cp[0][0].j["span"])
+                      how if ok else "the per-column closure of the parallel jacobian() computes something different from the sequential one:\n   seq %s\n   par %s" % (
+                          closure_signature(es, True), closure_signature(ep, True)), cp[0][0].j["span"])
             else:
                 R.bad(rule, config, bp.key, "column-closure-effects-equal", "closures not found", bp.j["span"])
     R.floor(rule, config, 5, "4 methods + column closure")
+
+
+def closure_signature(effects, pretty=False):
+    """(model calls, normal forms of full-column writes) of a per-column closure"""
+    N = nfmod.NF()
+    calls = sorted(repr((c, a)) for c, a in effects if c.startswith(TRAIT_MODEL))
+    writes = []
+    for c, a in effects:
+        if c.rsplit("::", 1)[-1] in FULL_COLUMN_WRITES and len(a) >= 2:
+            n = N.nf(a[1])
+            writes.append((repr(a[0]), nfmod.show(n, short) if pretty else repr(sorted(n.items(), key=repr))))
+    if pretty:
+        return "writes %s; model calls %d" % ([w[1][:200] for w in writes], len(calls))
+    return (tuple(calls), tuple(sorted(writes)))
 
 
 RAYON_OK = {"par_column_iter_mut", "enumerate", "map", "collect"}
